@@ -551,91 +551,224 @@ def r_term(rep, hc):
             rep.ok("R-TERM-POINT", key, "last sample before Interrupt is (event_t, event_y) of the terminal event")
 
 
+class _Unknown(Exception):
+    pass
+
+
+def _flip(o):
+    return {"L": "G", "G": "L", "E": "E"}.get(o, o)
+
+
+def _eval_fin(e, env, body, xid, xoldid, depth=0):
+    """Finite abstract evaluation of a comparator / direction test. env: {'dir': 'fwd'|'bwd', 'rel': 'L'|'E'|'G' (a.time vs
+    b.time), 'a': id, 'b': id, locals...}. Values: True/False, 'L'/'E'/'G', 'ANY' (a tie-break result that does not matter)."""
+    if depth > 40 or e is None:
+        raise _Unknown("depth")
+    k = e.get("k")
+    if k == "Block":
+        env = dict(env)
+        for st in e.get("stmts", []):
+            if st.get("k") == "Let" and st["pat"].get("k") == "PBind" and st.get("init") is not None:
+                env[st["pat"]["id"]] = _eval_fin(st["init"], env, body, xid, xoldid, depth + 1)
+            elif st.get("k") in ("ExprStmt", "Semi"):
+                continue
+            else:
+                raise _Unknown("statement %s" % st.get("k"))
+        tail = e.get("tail") if e.get("tail") is not None else e.get("expr")
+        return _eval_fin(tail, env, body, xid, xoldid, depth + 1)
+    if k in ("Cast", "AddrOf", "DropTemps", "Paren"):
+        return _eval_fin(e["e"], env, body, xid, xoldid, depth + 1)
+    if k == "Unary":
+        v = _eval_fin(e["e"], env, body, xid, xoldid, depth + 1)
+        if e["op"] == "Not" and isinstance(v, bool):
+            return not v
+        if e["op"] == "Deref":
+            return v
+        raise _Unknown("unary")
+    if k == "Lit" and e.get("lk") == "Bool":
+        return bool(e["v"])
+    if k == "Path":
+        if e.get("res") == "local":
+            if e["id"] in env:
+                return env[e["id"]]
+            lets = tast.find(body, lambda z: z.get("k") == "Let" and z["pat"].get("id") == e["id"] and z.get("init") is not None)
+            assigns = tast.find(body, lambda z: z.get("k") in ("Assign", "AssignOp") and z["l"].get("k") == "Path" and z["l"].get("id") == e["id"])
+            if len(lets) == 1 and not assigns:
+                return _eval_fin(lets[0]["init"], env, body, xid, xoldid, depth + 1)
+            raise _Unknown("local %s" % e.get("name"))
+        d = e.get("def") or ""
+        for nm, v in (("Ordering::Less", "L"), ("Ordering::Equal", "E"), ("Ordering::Greater", "G")):
+            if d.endswith(nm):
+                return v
+        raise _Unknown("path %s" % d)
+    if k == "Binary":
+        op = e["op"]
+        if op in ("And", "Or"):
+            l = _eval_fin(e["l"], env, body, xid, xoldid, depth + 1)
+            r = _eval_fin(e["r"], env, body, xid, xoldid, depth + 1)
+            return (l and r) if op == "And" else (l or r)
+        if op in ("Gt", "Lt", "Ge", "Le"):
+            def has(n, i):
+                return tast.contains(n, lambda z: z.get("k") == "Path" and z.get("id") == i) and not tast.contains(n, lambda z: z.get("k") == "Binary")
+            fwd = None
+            if has(e["l"], xid) and has(e["r"], xoldid):
+                fwd = op in ("Gt", "Ge")
+            elif has(e["l"], xoldid) and has(e["r"], xid):
+                fwd = op in ("Lt", "Le")
+            if fwd is not None:
+                # x != xold at this point of the handler (the initial callback returned earlier)
+                return fwd == (env["dir"] == "fwd")
+        if op in ("Eq", "Ne"):
+            l = _eval_fin(e["l"], env, body, xid, xoldid, depth + 1)
+            r = _eval_fin(e["r"], env, body, xid, xoldid, depth + 1)
+            if "ANY" in (l, r):
+                raise _Unknown("compare ANY")
+            return (l == r) if op == "Eq" else (l != r)
+        raise _Unknown("binary %s" % op)
+    if k == "If":
+        c = _eval_fin(e["cond"], env, body, xid, xoldid, depth + 1)
+        if not isinstance(c, bool):
+            raise _Unknown("cond")
+        br = e["then"] if c else e.get("else")
+        if br is None:
+            raise _Unknown("no else")
+        return _eval_fin(br, env, body, xid, xoldid, depth + 1)
+    if k == "Match":
+        sc = _eval_fin(e["scrut"], env, body, xid, xoldid, depth + 1)
+        for arm in e["arms"]:
+            pt = arm["pat"]
+            d = (pt.get("def") or "")
+            lit = pt.get("k") == "PLit" and pt.get("v")
+            hit = (pt.get("k") == "PWild") or (pt.get("k") == "PBind") or \
+                  (isinstance(sc, bool) and pt.get("k") == "PLit" and bool(lit in (True, "true")) == sc) or \
+                  (sc in ("L", "E", "G") and d.endswith({"L": "Less", "E": "Equal", "G": "Greater"}[sc]))
+            if hit and arm.get("guard") is None:
+                return _eval_fin(arm["body"], env, body, xid, xoldid, depth + 1)
+        raise _Unknown("match")
+    if k == "MethodCall":
+        nm = e.get("name")
+        if nm in ("partial_cmp", "total_cmp", "cmp"):
+            def side(n):
+                f = tast.find(n, lambda z: z.get("k") == "Field")
+                p_ = tast.find(n, lambda z: z.get("k") == "Path" and z.get("id") in (env["a"], env["b"]))
+                if len(f) >= 1 and len(p_) == 1:
+                    return (f[0]["name"], "a" if p_[0]["id"] == env["a"] else "b")
+                return None
+            l, r = side(e["recv"]), side(e["args"][0])
+            if l is None or r is None:
+                raise _Unknown("comparison operands")
+            if l[0] != "0" or r[0] != "0":
+                return "ANY" if l[0] == r[0] else "ANY"    # ordering by another component: only legitimate as a tie-break
+            if l[1] == r[1]:
+                return "E"
+            return env["rel"] if l[1] == "a" else _flip(env["rel"])
+        if nm in ("unwrap", "expect", "unwrap_or", "unwrap_or_else", "unwrap_or_default"):
+            return _eval_fin(e["recv"], env, body, xid, xoldid, depth + 1)
+        if nm == "reverse" and not e["args"]:
+            return _flip(_eval_fin(e["recv"], env, body, xid, xoldid, depth + 1))
+        if nm in ("then", "then_with"):
+            v = _eval_fin(e["recv"], env, body, xid, xoldid, depth + 1)
+            return "ANY" if v == "E" else v
+        if nm in ("is_lt", "is_gt", "is_eq", "is_le", "is_ge", "is_ne"):
+            v = _eval_fin(e["recv"], env, body, xid, xoldid, depth + 1)
+            if v == "ANY":
+                raise _Unknown("ANY")
+            return {"is_lt": v == "L", "is_gt": v == "G", "is_eq": v == "E", "is_le": v in ("L", "E"), "is_ge": v in ("G", "E"), "is_ne": v != "E"}[nm]
+        raise _Unknown("method %s" % nm)
+    raise _Unknown("node %s" % k)
+
+
 def r_evt_sort(rep, hc):
+    """events detected in one step are put in the order of integration before they are processed: for both directions and
+    each ordering of two event times the comparator that actually runs (finite abstract evaluation of the closure and of
+    the direction tests selecting it) returns the time order forward and the reversed time order backward"""
     body = hc.body["body"]
     did = hc.detected_local()
     pf = hc.process_for()
     key = "R-EVT-SORT:%s" % hc.fn
-    sorts = tast.find_with_parents(body, lambda x: x.get("k") == "MethodCall" and x.get("name") in ("sort_by", "sort_unstable_by")
-                                   and x["recv"].get("k") == "Path" and x["recv"].get("id") == did)
     if pf is None or did is None:
         rep.inconc("R-EVT-SORT", key, "processing loop not found")
         return
-    if not sorts:
+    on_list = lambda x, names: x.get("k") == "MethodCall" and x.get("name") in names and x["recv"].get("k") == "Path" and x["recv"].get("id") == did
+    sorts = tast.find_with_parents(body, lambda x: on_list(x, ("sort_by", "sort_unstable_by")))
+    revs = tast.find_with_parents(body, lambda x: on_list(x, ("reverse",)))
+    other = tast.find(body, lambda x: on_list(x, ("sort", "sort_unstable", "sort_by_key", "sort_by_cached_key", "sort_unstable_by_key")))
+    if not sorts and not other:
         rep.violation("R-EVT-SORT", key, "events detected in one step are processed without a chronological sort", sp(pf))
         return
+    if other:
+        rep.inconc("R-EVT-SORT", key, "the detected events are sorted with %s, which this rule does not model" % other[0].get("name"), sp(other[0]))
+        return
     xid, xoldid = hc.pid[2], hc.pid[1]
-    seen = {}
     probs = []
-    for s, parents in sorts:
-        cl = s["args"][0]
-        if cl.get("k") != "Closure" or len(cl["params"]) != 2:
-            probs.append("comparator is not a two-argument closure")
-            continue
-        pa, pb = cl["params"][0].get("id"), cl["params"][1].get("id")
-        cmpc = tast.find(cl["body"], lambda z: z.get("k") == "MethodCall" and z.get("name") in ("partial_cmp", "total_cmp", "cmp"))
-        if len(cmpc) != 1:
-            probs.append("comparator does not compare with partial_cmp")
-            continue
-        c = cmpc[0]
+    unknown = []
 
-        def side(e):
-            f = tast.find(e, lambda z: z.get("k") == "Field")
-            p = tast.find(e, lambda z: z.get("k") == "Path" and z.get("id") in (pa, pb))
-            if len(f) >= 1 and len(p) == 1:
-                return (f[0]["name"], "a" if p[0]["id"] == pa else "b")
-            return None
-        l, r = side(c["recv"]), side(c["args"][0])
-        if l is None or r is None or l[0] != "0" or r[0] != "0" or l[1] == r[1]:
-            probs.append("comparator does not order by the time component of the two elements")
-            continue
-        order = "asc" if l[1] == "a" else "desc"
-        # which direction selects this sort?
-        ifs = [a for a in parents if a.get("k") == "If"]
-        sel = None
-        for a in ifs[::-1]:
-            branch = "then" if tast.contains(a["then"], lambda z: z is s) else "else"
-            c0 = a["cond"]
-            # resolve `forward` local
-            if c0.get("k") == "Path" and c0.get("res") == "local":
-                lets = tast.find(body, lambda z: z.get("k") == "Let" and z["pat"].get("id") == c0["id"])
-                if lets and lets[-1].get("init"):
-                    c0 = [l_["init"] for l_ in lets if tast.contains(parents[0] if parents else body, lambda z: z is l_)] or [lets[-1]["init"]]
-                    c0 = c0[-1]
-            if c0.get("k") == "Binary" and c0["op"] in ("Gt", "Lt", "Ge", "Le"):
-                lx = tast.contains(c0["l"], lambda z: z.get("k") == "Path" and z.get("id") == xid)
-                lo = tast.contains(c0["l"], lambda z: z.get("k") == "Path" and z.get("id") == xoldid)
-                rx = tast.contains(c0["r"], lambda z: z.get("k") == "Path" and z.get("id") == xid)
-                ro = tast.contains(c0["r"], lambda z: z.get("k") == "Path" and z.get("id") == xoldid)
-                fwd = None
-                if lx and ro:
-                    fwd = c0["op"] in ("Gt", "Ge")
-                elif lo and rx:
-                    fwd = c0["op"] in ("Lt", "Le")
-                if fwd is not None:
-                    sel = "forward" if (fwd == (branch == "then")) else "backward"
-                    break
-        if sel is None:
-            probs.append("sort is not selected by the sign of x - xold")
-            continue
-        seen[sel] = order
-    if not probs:
-        if seen.get("forward") != "asc":
-            probs.append("forward integration sorts events %s" % seen.get("forward"))
-        if seen.get("backward") != "desc":
-            probs.append("backward integration sorts events %s" % seen.get("backward"))
+    def runs(parents, node, env):
+        """does the statement execute under env['dir']? (conditions of the enclosing ifs inside the handler)"""
+        for a in parents:
+            if a.get("k") == "If" and (tast.contains(a["then"], lambda z: z is node) or (a.get("else") is not None and tast.contains(a["else"], lambda z: z is node))):
+                if tast.contains(a["cond"], lambda z: z is node):
+                    continue
+                try:
+                    c = _eval_fin(a["cond"], env, body, xid, xoldid)
+                except _Unknown:
+                    continue    # a condition unrelated to the direction (it guards the whole event block)
+                if isinstance(c, bool):
+                    in_then = tast.contains(a["then"], lambda z: z is node)
+                    if c != in_then:
+                        return False
+        return True
+
+    n_cases = 0
+    for d_ in ("fwd", "bwd"):
+        for rel in ("L", "G", "E"):
+            res = None
+            ran = 0
+            for s_, parents in sorts:
+                cl = s_["args"][0] if s_["args"] else {}
+                if cl.get("k") != "Closure" or len(cl.get("params", [])) != 2 or any(p_.get("k") != "PBind" for p_ in cl["params"]):
+                    unknown.append("comparator is not a two-argument closure")
+                    continue
+                env = {"dir": d_, "rel": rel, "a": cl["params"][0]["id"], "b": cl["params"][1]["id"]}
+                if not runs(parents, s_, env):
+                    continue
+                ran += 1
+                try:
+                    res = _eval_fin(cl["body"], env, body, xid, xoldid)
+                except _Unknown as ex:
+                    unknown.append("comparator not evaluated (%s)" % ex)
+                    res = None
+            flips = 0
+            for r_, parents in revs:
+                if runs(parents, r_, {"dir": d_, "rel": rel, "a": None, "b": None}):
+                    flips += 1
+            if ran != 1:
+                if not unknown:
+                    probs.append("%d sorts run for %s integration" % (ran, "forward" if d_ == "fwd" else "backward"))
+                continue
+            if res is None:
+                continue
+            if flips % 2:
+                res = _flip(res)
+            want = rel if d_ == "fwd" else _flip(rel)
+            n_cases += 1
+            if rel != "E" and res != want:
+                probs.append("%s integration: two events with t_a %s t_b are ordered %s by the comparator that runs (chronological order needs %s)"
+                             % ("forward" if d_ == "fwd" else "backward", {"L": "<", "G": ">"}[rel], res, want))
     # sort precedes the processing loop (statement order in the common block)
-    if not probs:
+    if not probs and not unknown:
         blk = [a for a in [ps for nd, ps in tast.find_with_parents(body, lambda z: z is pf)][0] if a.get("k") == "Block"][-1]
         stl = list(blk.get("stmts", [])) + ([blk["tail"]] if blk.get("tail") is not None else [])
         pos_for = next((i for i, st in enumerate(stl) if tast.contains(st, lambda z: z is pf)), None)
-        pos_sort = [i for i, st in enumerate(stl) for s, _ in sorts if tast.contains(st, lambda z: z is s)]
+        pos_sort = [i for i, st in enumerate(stl) for s_, _ in sorts if tast.contains(st, lambda z: z is s_)]
         if pos_for is None or not pos_sort or max(pos_sort) > pos_for:
             probs.append("the sort does not precede the processing loop")
     if probs:
-        rep.violation("R-EVT-SORT", key, "; ".join(probs), sp(sorts[0][0]))
+        rep.violation("R-EVT-SORT", key, "; ".join(sorted(set(probs))[:3]), sp(sorts[0][0]))
+    elif unknown:
+        rep.inconc("R-EVT-SORT", key, "; ".join(sorted(set(unknown))[:2]), sp(sorts[0][0]))
     else:
-        rep.ok("R-EVT-SORT", key, "detected events sorted by time ascending (forward) / descending (backward) before processing")
+        rep.ok("R-EVT-SORT", key, "%d (direction, order) cases: events are processed in time order forward and reversed time order backward" % n_cases)
 
 
 # ------------------------------------------------------------------------------------- event provenance
